@@ -114,6 +114,15 @@ def run(ctx):
                 kw = dict(step=step, method=meth)
                 if use_bounds:
                     kw['bounds'] = (lo, hi)
+                    if rng.random() < 0.3:
+                        # one scalar bound per side, with a face at exactly 0 (x moved onto or next to that face)
+                        slo, shi = rng.choice([(0, 1), (0.0, np.inf), (-1, 0), (-np.inf, 0.0), (0, 2.5)])
+                        x = np.clip(np.abs(x) % 1.0 * (1 if slo == 0 or slo == 0.0 else -1), slo if np.isfinite(slo) else -0.9, shi if np.isfinite(shi) else 0.9)
+                        if rng.random() < 0.6:
+                            x[rng.randrange(n)] = 0.0
+                        lo, hi = np.full(n, float(slo)), np.full(n, float(shi))
+                        kw['bounds'] = (slo, shi)
+                        rep['x'], rep['bounds'] = x.tolist(), [slo, shi]
                 jobj = nds.Jacobian(f, **kw)
                 if rng.random() < 0.5:
                     # the same object is used first with another extra argument (and, half of the time, at another point)
